@@ -37,8 +37,18 @@ def parseRets (s : String) : Option (List StreamRet) :=
       | _, _ => none
     | _ => none
 
+/-- `mix` / `demix`: the built-in matrix of `order_plus_one = o`; `m<rows>:<cols>:<cells>`: an explicit
+    (possibly non-square) column-major matrix with gain 0. -/
 def pickMatrix (o : Nat) (which : String) : Option MappingMatrix :=
-  if which = "mix" then mixing o else if which = "demix" then demixing o else none
+  if which = "mix" then mixing o else if which = "demix" then demixing o
+  else if which.startsWith "m" then
+    match ((which.drop 1).toString).splitOn ":" with
+    | [r, c, cells] =>
+      match r.toNat?, c.toNat?, parseIntList cells with
+      | some r, some c, some cs => if cs.length = r * c then some { rows := r, cols := c, gain := 0, data := cs } else none
+      | _, _, _ => none
+    | _ => none
+  else none
 
 def parseBitsList (s : String) : Option (List (Int × Int)) :=
   if s = "-" then some []
